@@ -30,6 +30,7 @@ type Profile struct {
 	PlantPct    int            // percentage of refresh ops preceded by planting a day-old cosignature
 	DrvFaults   bool           // faults may also hit SQL driver calls
 	MixOldPct   int            // percentage of ops (of any class) whose old size is replaced by a hostile one: requests that fall under two rules at once
+	ECDSAPct    int            // percentage of logs whose key is ECDSA P-256 (several shipped logs use such keys)
 	NonCanonPct int            // percentage of log-signed checkpoints written non-canonically (leading zeros in the size, spare base64 bits set)
 }
 
@@ -205,7 +206,13 @@ func GenHist(t *rapid.T, p Profile) *HistCase {
 		if kl != "log0" {
 			name = fmt.Sprintf("logkey%d", i)
 		}
-		c.Logs = append(c.Logs, LogSpec{Origin: o, KeyLabel: kl, KeyName: name})
+		ls := LogSpec{Origin: o, KeyLabel: kl, KeyName: name}
+		if kl != "log0" || i == 0 {
+			ls.ECDSA = Pct(t, p.ECDSAPct, "ecdsa")
+		} else {
+			ls.ECDSA = c.Logs[0].ECDSA // shares log 0's key
+		}
+		c.Logs = append(c.Logs, ls)
 	}
 	if p.WKeySets != nil {
 		c.WKeys = p.WKeySets[rapid.IntRange(0, len(p.WKeySets)-1).Draw(t, "wkset")]
